@@ -15,6 +15,21 @@
 // same package (translated on demand), and the leaf table of the spec. Every translated function returns
 // `Option T`: `none` stands for a Go run-time panic (ForceUnwrap of an absent Optional, division by zero).
 // int64 arithmetic is translated to unbounded Int: overflow is outside this translation (stated in DESIGN.md).
+//
+// String parsers (added): a Go `string` whose Lean binder is `Str` (= List Char, one Char per BYTE) supports
+// ==/!= with a literal, len, indexing and slicing (Option-valued: `none` exactly when Go panics), and
+// `for i, ch := range s` / `for _, ch := range s` with continue, break, early return and assignments to outer
+// variables. Each loop becomes an auxiliary STRUCTURALLY recursive definition over the remaining characters with
+// the byte index and the loop-carried variables as parameters; it returns `Loop.ret v` (early return) or
+// `Loop.done (carried...)`. CAVEAT stated in every generated loop: Go's range decodes RUNES, the translation steps
+// one BYTE at a time; the two coincide exactly on ASCII input, so theorems about the Go function carry the
+// hypothesis `∀ c ∈ s, c.toNat < 128`. `strings.SplitN(x, "c", 2)` is translated structurally (Rv.SrcStr.splitN2),
+// a package-level `map[rune]int64` literal that nothing can modify is emitted as a Lean table and `v, ok := m[k]`
+// becomes a lookup in that table; `for k, v := range m` over such a map is translated as a loop over an ORDER that
+// is a parameter of the translated function (Go's order is unspecified: theorems must hold for every permutation).
+// `errmode: "name"`: a (T, error) result becomes `Except String T`, the string being the NAME of the package-level
+// error variable returned (directly or as the %w operand of fmt.Errorf); the value returned beside a non-nil error
+// is dropped (it must be a pure expression).
 package main
 
 import (
@@ -35,33 +50,42 @@ import (
 )
 
 type Spec struct {
-	File    string            `json:"file"`    // path below the repo root
-	Recv    string            `json:"recv"`    // receiver type name ("" for a plain function)
-	Func    string            `json:"func"`    // Go function name
-	Lean    string            `json:"lean"`    // Lean definition name
-	Binders []string          `json:"binders"` // Lean binders: receiver first (if any), then one per Go parameter, then extras
-	Ret     string            `json:"ret"`     // Lean result type (inside Option)
-	Results []string          `json:"results"` // per Go result: "val" | "err" (error => Bool: nil = true)
-	Leaves  map[string]string `json:"leaves"`  // canonical Go expression => Lean term; a leading '?' marks an Option-valued term
-	Ignore  []string          `json:"ignore"`  // regexps of expression statements without influence on the result
-	Effects map[string]string `json:"effects"` // regexp of a statement => "name := leanTerm" (sets a pseudo result)
-	FuncLit bool              `json:"funclit"` // translate the first function literal inside the body (middleware closures)
-	Pseudo  map[string]string `json:"pseudo"`  // pseudo result variables with their initial Lean value (returned by bare return / end)
-	Expr    string            `json:"expr"`    // if set: translate only the right-hand side of the first assignment to this variable
-	Cond    string            `json:"cond"`    // if set: translate only the condition of the first `if` whose printed condition matches this regexp
-	Doc     string            `json:"doc"`
-	Group   string            `json:"group"`   // output module: Rv/Generated/Src<Group>.lean
+	File     string            `json:"file"`    // path below the repo root
+	Recv     string            `json:"recv"`    // receiver type name ("" for a plain function)
+	Func     string            `json:"func"`    // Go function name
+	Lean     string            `json:"lean"`    // Lean definition name
+	Binders  []string          `json:"binders"` // Lean binders: receiver first (if any), then one per Go parameter, then extras
+	Ret      string            `json:"ret"`     // Lean result type (inside Option)
+	Results  []string          `json:"results"` // per Go result: "val" | "err" (error => Bool: nil = true)
+	Leaves   map[string]string `json:"leaves"`  // canonical Go expression => Lean term; a leading '?' marks an Option-valued term
+	Ignore   []string          `json:"ignore"`  // regexps of expression statements without influence on the result
+	Effects  map[string]string `json:"effects"` // regexp of a statement => "name := leanTerm" (sets a pseudo result)
+	FuncLit  bool              `json:"funclit"` // translate the first function literal inside the body (middleware closures)
+	Pseudo   map[string]string `json:"pseudo"`  // pseudo result variables with their initial Lean value (returned by bare return / end)
+	Expr     string            `json:"expr"`    // if set: translate only the right-hand side of the first assignment to this variable
+	Cond     string            `json:"cond"`    // if set: translate only the condition of the first `if` whose printed condition matches this regexp
+	Doc      string            `json:"doc"`
+	Group    string            `json:"group"`    // output module: Rv/Generated/Src<Group>.lean
+	ErrMode  string            `json:"errmode"`  // "" (error => Bool) | "name" ((T, error) => Except String T, the NAME of the error variable)
+	Structs  map[string]string `json:"structs"`  // Go struct type name => Lean structure (composite literals)
+	Imports  []string          `json:"imports"`  // extra Lean imports of the generated module
+	MapOrder map[string]string `json:"maporder"` // Go map variable ranged over => name of the Lean binder (List (K × V)) giving the iteration order
 }
 
 var fset = token.NewFileSet()
 var repoRoot string
 
 type pkgInfo struct {
-	dir    string
-	files  []*ast.File
-	consts map[string]ast.Expr
+	dir     string
+	files   []*ast.File
+	consts  map[string]ast.Expr
 	litVars []string
-	funcs  map[string]*ast.FuncDecl // "Recv.Name" or "Name"
+	funcs   map[string]*ast.FuncDecl // "Recv.Name" or "Name"
+	structs map[string]*ast.StructType
+	errVars map[string]bool              // package-level `var ErrX = errors.New(...)`
+	mapVars map[string]*ast.CompositeLit // package-level `var m = map[K]V{...}`
+	mapOK   map[string]string            // map variable => "" (checked: never modified) or the reason it may be
+	fileOf  map[*ast.FuncDecl]*ast.File
 }
 
 var pkgs = map[string]*pkgInfo{}
@@ -70,7 +94,8 @@ func loadPkg(dir string) *pkgInfo {
 	if p, ok := pkgs[dir]; ok {
 		return p
 	}
-	p := &pkgInfo{dir: dir, consts: map[string]ast.Expr{}, funcs: map[string]*ast.FuncDecl{}}
+	p := &pkgInfo{dir: dir, consts: map[string]ast.Expr{}, funcs: map[string]*ast.FuncDecl{}, structs: map[string]*ast.StructType{},
+		errVars: map[string]bool{}, mapVars: map[string]*ast.CompositeLit{}, mapOK: map[string]string{}, fileOf: map[*ast.FuncDecl]*ast.File{}}
 	ents, err := os.ReadDir(dir)
 	if err != nil {
 		fail("cannot read %s: %v", dir, err)
@@ -88,6 +113,15 @@ func loadPkg(dir string) *pkgInfo {
 		for _, d := range f.Decls {
 			switch d := d.(type) {
 			case *ast.GenDecl:
+				if d.Tok == token.TYPE {
+					for _, s := range d.Specs {
+						if ts, ok := s.(*ast.TypeSpec); ok {
+							if st, ok := ts.Type.(*ast.StructType); ok {
+								p.structs[ts.Name.Name] = st
+							}
+						}
+					}
+				}
 				if d.Tok != token.CONST && d.Tok != token.VAR {
 					continue
 				}
@@ -96,6 +130,14 @@ func loadPkg(dir string) *pkgInfo {
 					for i, nm := range vs.Names {
 						if i < len(vs.Values) {
 							if d.Tok == token.VAR {
+								if call, ok := vs.Values[i].(*ast.CallExpr); ok && show(call.Fun) == "errors.New" {
+									p.errVars[nm.Name] = true
+								}
+								if cl, ok := vs.Values[i].(*ast.CompositeLit); ok {
+									if _, isMap := cl.Type.(*ast.MapType); isMap {
+										p.mapVars[nm.Name] = cl
+									}
+								}
 								// a package-level variable initialised with a literal counts as a constant only if nothing assigns to it (checked below)
 								if _, lit := vs.Values[i].(*ast.BasicLit); !lit {
 									continue
@@ -112,6 +154,7 @@ func loadPkg(dir string) *pkgInfo {
 					key = recvTypeName(d.Recv.List[0].Type) + "." + key
 				}
 				p.funcs[key] = d
+				p.fileOf[d] = f
 			}
 		}
 	}
@@ -171,7 +214,7 @@ func show(n any) string {
 	return strings.Join(strings.Fields(b.String()), " ")
 }
 
-var leanKeywords = map[string]bool{"end": true, "from": true, "at": true, "do": true, "then": true, "else": true, "match": true, "with": true,
+var leanKeywords = map[string]bool{"exists": true, "rest_": true, "r_": true, "v_": true, "end": true, "from": true, "at": true, "do": true, "then": true, "else": true, "match": true, "with": true,
 	"fun": true, "let": true, "in": true, "open": true, "section": true, "namespace": true, "instance": true, "class": true, "structure": true,
 	"where": true, "have": true, "show": true, "by": true, "if": true, "def": true, "theorem": true, "Type": true, "Prop": true, "some": true, "none": true, "true": true, "false": true, "now": true}
 
@@ -216,17 +259,78 @@ func (c comp) andThen(k func(v string) string) string {
 }
 
 type tr struct {
-	spec   *Spec
-	pkg    *pkgInfo
-	fn     *ast.FuncDecl
-	recv   string
-	params []string
-	locals map[string]bool
-	plean  map[string]string // Go parameter / receiver name => Lean binder name
-	named  []string // named results (Go names)
-	fresh  int
-	out    *genOut
-	pseudo []string
+	spec         *Spec
+	pkg          *pkgInfo
+	fn           *ast.FuncDecl
+	recv         string
+	params       []string
+	locals       map[string]bool
+	plean        map[string]string // Go parameter / receiver name => Lean binder name
+	named        []string          // named results (Go names)
+	fresh        int
+	out          *genOut
+	pseudo       []string
+	kinds        map[string]string // Go variable => kind (kStr, kInt, ...); "" = unknown (legacy behaviour)
+	declOrder    []string          // locals in declaration order (fixes the order of loop-carried parameters)
+	used         map[string]bool   // identifiers read by translated expressions (to find the free variables of a loop body)
+	loop         *loopCtx          // non-nil while the body of a range loop is translated
+	nloops       int
+	orderBinders []string // extra binders: iteration orders of the maps ranged over
+}
+
+// kinds of values the string subset knows about
+const (
+	kStr    = "Str"    // Go string modelled as Rv.Str (List Char, one Char per byte)
+	kString = "String" // Go string modelled as a Lean String (legacy: only ==, != with literals)
+	kStrs   = "Strs"   // []string produced by strings.SplitN (List Str)
+	kInt    = "Int"
+	kBool   = "Bool"
+	kRune   = "Rune" // rune (range variable, rune parameter): arithmetic allowed (int32, cannot overflow on code points)
+	kByte   = "Byte" // byte obtained by indexing a string: comparisons only (uint8 arithmetic wraps around)
+)
+
+type loopCtx struct {
+	callTok string   // placeholder of "loopName fixedArgs" inside the body text
+	tailVar string   // Lean name of the remaining elements
+	index   string   // Lean name of the byte index parameter ("" if the loop has none)
+	carried []string // Go names of the loop-carried variables
+}
+
+func leanTypeOfKind(k string) string {
+	switch k {
+	case kStr:
+		return "Str"
+	case kString:
+		return "String"
+	case kStrs:
+		return "List Str"
+	case kInt:
+		return "Int"
+	case kBool:
+		return "Bool"
+	case kRune, kByte:
+		return "Char"
+	}
+	return ""
+}
+
+func kindOfGoType(e ast.Expr) string {
+	if e == nil {
+		return ""
+	}
+	switch show(e) {
+	case "string":
+		return kStr
+	case "int", "int64", "int32":
+		return kInt
+	case "bool":
+		return kBool
+	case "rune":
+		return kRune
+	case "byte", "uint8":
+		return kByte
+	}
+	return ""
 }
 
 type genOut struct {
@@ -234,6 +338,7 @@ type genOut struct {
 	defs  []string
 	done  map[string]string // go key => lean name
 	order []string
+	maps  map[string]bool // map literals already emitted
 }
 
 func (t *tr) freshName() string {
@@ -272,7 +377,7 @@ func (t *tr) leaf(e ast.Node) (comp, bool) {
 			if !ok {
 				fail("%s: constant %s not found in %s", t.spec.Lean, parts[1], parts[0])
 			}
-			ot := &tr{spec: t.spec, pkg: other, locals: map[string]bool{}, plean: map[string]string{}, out: t.out}
+			ot := &tr{spec: t.spec, pkg: other, locals: map[string]bool{}, plean: map[string]string{}, out: t.out, kinds: map[string]string{}, used: map[string]bool{}}
 			return ot.constExpr(cv), true
 		}
 		if strings.HasPrefix(v, "?") {
@@ -337,9 +442,7 @@ func (t *tr) expr(e ast.Expr) comp {
 			}
 			return pure(leanString(s))
 		case token.CHAR:
-			s, _ := strconv.Unquote(x.Value)
-			r := []rune(s)
-			return pure(fmt.Sprintf("(Char.ofNat %d)", r[0]))
+			return pure(charLit(t.charValue(x)))
 		}
 	case *ast.Ident:
 		switch x.Name {
@@ -347,14 +450,52 @@ func (t *tr) expr(e ast.Expr) comp {
 			return pure(x.Name)
 		}
 		if t.locals[x.Name] {
+			t.used[x.Name] = true
 			return pure(mangle(x.Name))
 		}
 		if ln, ok := t.plean[x.Name]; ok {
+			t.used[x.Name] = true
 			return pure(ln)
 		}
 		if cv, ok := t.pkg.consts[x.Name]; ok {
 			return t.constExpr(cv)
 		}
+	case *ast.IndexExpr:
+		switch t.kindOf(x.X) {
+		case kStr, kStrs:
+			// s[i]: Go panics when i is out of range; the lookup is Option-valued, `none` exactly then
+			a, b := t.expr(x.X), t.expr(x.Index)
+			f := "Rv.SrcStr.byteAt"
+			if t.kindOf(x.X) == kStrs {
+				f = "Rv.SrcStr.strAt"
+			}
+			n := t.freshName()
+			return comp{pre: append(append(append([]bind{}, a.pre...), b.pre...), bind{n, f + " " + a.val + " " + b.val}), val: n}
+		}
+		fail("%s (%s): index expression `%s`: the indexed value is not a string of kind Str nor a SplitN result (a map lookup is supported only as `v, ok := m[k]`)", t.spec.Lean, t.spec.File, show(x))
+	case *ast.SliceExpr:
+		if x.Slice3 || x.Max != nil {
+			fail("%s (%s): 3-index slice `%s`", t.spec.Lean, t.spec.File, show(x))
+		}
+		if t.kindOf(x.X) != kStr {
+			fail("%s (%s): slice expression `%s`: the sliced value is not a string of kind Str", t.spec.Lean, t.spec.File, show(x))
+		}
+		c := t.expr(x.X)
+		n := t.freshName()
+		switch {
+		case x.Low != nil && x.High == nil:
+			a := t.expr(x.Low)
+			return comp{pre: append(append(c.pre, a.pre...), bind{n, "Rv.SrcStr.sliceFrom " + c.val + " " + a.val}), val: n}
+		case x.Low == nil && x.High != nil:
+			b := t.expr(x.High)
+			return comp{pre: append(append(c.pre, b.pre...), bind{n, "Rv.SrcStr.sliceTo " + c.val + " " + b.val}), val: n}
+		case x.Low != nil && x.High != nil:
+			a, b := t.expr(x.Low), t.expr(x.High)
+			return comp{pre: append(append(append(c.pre, a.pre...), b.pre...), bind{n, "Rv.SrcStr.slice " + c.val + " " + a.val + " " + b.val}), val: n}
+		}
+		return c // s[:] is s
+	case *ast.CompositeLit:
+		return t.compositeLit(x)
 	case *ast.UnaryExpr:
 		c := t.expr(x.X)
 		switch x.Op {
@@ -386,6 +527,40 @@ func (t *tr) expr(e ast.Expr) comp {
 				term = "if " + a.val + " then some " + short + " else " + b.render()
 			}
 			return comp{pre: append(append([]bind{}, a.pre...), bind{n, term}), val: n}
+		}
+		kx, ky := t.kindOf(x.X), t.kindOf(x.Y)
+		if kx == kStr || ky == kStr {
+			// strings of kind Str: only (in)equality, a literal operand becomes a list of bytes
+			if x.Op != token.EQL && x.Op != token.NEQ {
+				fail("%s (%s): operator %s on strings in `%s` (only == and != are supported)", t.spec.Lean, t.spec.File, x.Op, show(x))
+			}
+			a, b := t.strOperand(x.X), t.strOperand(x.Y)
+			op := " == "
+			if x.Op == token.NEQ {
+				op = " != "
+			}
+			return join2(a, b, func(p, q string) string { return "(" + p + op + q + ")" })
+		}
+		if kx == kRune || ky == kRune || kx == kByte || ky == kByte {
+			switch x.Op {
+			case token.ADD, token.SUB:
+				// rune arithmetic (int32 on code points cannot overflow); byte arithmetic wraps around modulo 256: refused
+				if kx == kByte || ky == kByte {
+					fail("%s (%s): arithmetic on a byte in `%s` (uint8 wraps around; not modelled)", t.spec.Lean, t.spec.File, show(x))
+				}
+				a, b := t.runeAsInt(x.X), t.runeAsInt(x.Y)
+				op := " + "
+				if x.Op == token.SUB {
+					op = " - "
+				}
+				return join2(a, b, func(p, q string) string { return "(" + p + op + q + ")" })
+			case token.EQL, token.NEQ, token.LSS, token.LEQ, token.GTR, token.GEQ:
+				if !t.isCharLike(x.X) || !t.isCharLike(x.Y) {
+					fail("%s (%s): comparison `%s` mixes a byte/rune with a value that is neither a byte/rune variable nor a character literal", t.spec.Lean, t.spec.File, show(x))
+				}
+			default:
+				fail("%s (%s): operator %s on a byte/rune in `%s`", t.spec.Lean, t.spec.File, x.Op, show(x))
+			}
 		}
 		a, b := t.expr(x.X), t.expr(x.Y)
 		switch x.Op {
@@ -421,6 +596,9 @@ func (t *tr) expr(e ast.Expr) comp {
 			return c
 		}
 	case *ast.SelectorExpr:
+		if show(x) == "math.MaxInt64" && t.imports("math") && !t.locals["math"] {
+			return pure("(9223372036854775807 : Int)")
+		}
 		if id, ok := x.X.(*ast.Ident); ok && t.locals[id.Name] {
 			return pure(mangle(id.Name) + "." + mangle(lowerFirst(x.Sel.Name)))
 		}
@@ -438,6 +616,204 @@ func (t *tr) expr(e ast.Expr) comp {
 	}
 	fail("%s (%s): cannot translate expression `%s` (canonical form `%s`): no leaf rule and not in the supported subset", t.spec.Lean, t.spec.File, show(e), t.canon(e))
 	return comp{}
+}
+
+// does the file of the function being translated import the standard package `path` under its own name?
+func (t *tr) imports(path string) bool {
+	f := t.pkg.fileOf[t.fn]
+	if f == nil {
+		return false
+	}
+	for _, im := range f.Imports {
+		if p, _ := strconv.Unquote(im.Path.Value); p == path && (im.Name == nil || im.Name.Name == path) {
+			return true
+		}
+	}
+	return false
+}
+
+func (t *tr) charValue(x *ast.BasicLit) rune {
+	s, err := strconv.Unquote(x.Value)
+	r := []rune(s)
+	if err != nil || len(r) != 1 {
+		fail("%s: character literal %s", t.spec.Lean, x.Value)
+	}
+	return r[0]
+}
+
+func charLit(r rune) string {
+	switch {
+	case r == '\t':
+		return "'\\t'"
+	case r >= 32 && r <= 126 && r != '\'' && r != '\\':
+		return "'" + string(r) + "'"
+	}
+	return fmt.Sprintf("(Char.ofNat %d)", r)
+}
+
+// a Go string literal as Rv.Str: one Char per BYTE of the literal
+func strLitBytes(s string) string {
+	cs := []string{}
+	for i := 0; i < len(s); i++ {
+		cs = append(cs, charLit(rune(s[i])))
+	}
+	return "([" + strings.Join(cs, ", ") + "] : Str)"
+}
+
+func (t *tr) strOperand(e ast.Expr) comp {
+	if p, ok := e.(*ast.ParenExpr); ok {
+		return t.strOperand(p.X)
+	}
+	if bl, ok := e.(*ast.BasicLit); ok && bl.Kind == token.STRING {
+		s, err := strconv.Unquote(bl.Value)
+		if err != nil {
+			fail("%s: string literal %s", t.spec.Lean, bl.Value)
+		}
+		return pure(strLitBytes(s))
+	}
+	if t.kindOf(e) != kStr {
+		fail("%s (%s): `%s` is compared with a string of kind Str but is neither a literal nor of kind Str itself", t.spec.Lean, t.spec.File, show(e))
+	}
+	return t.expr(e)
+}
+
+func (t *tr) isCharLike(e ast.Expr) bool {
+	if p, ok := e.(*ast.ParenExpr); ok {
+		return t.isCharLike(p.X)
+	}
+	if bl, ok := e.(*ast.BasicLit); ok {
+		return bl.Kind == token.CHAR
+	}
+	k := t.kindOf(e)
+	return k == kRune || k == kByte
+}
+
+// a rune operand of + or - as an Int (its code point)
+func (t *tr) runeAsInt(e ast.Expr) comp {
+	if p, ok := e.(*ast.ParenExpr); ok {
+		return t.runeAsInt(p.X)
+	}
+	if bl, ok := e.(*ast.BasicLit); ok && bl.Kind == token.CHAR {
+		return pure(fmt.Sprintf("(%d : Int)", t.charValue(bl)))
+	}
+	if t.kindOf(e) != kRune {
+		fail("%s (%s): `%s` is used in rune arithmetic but is neither a rune variable nor a character literal", t.spec.Lean, t.spec.File, show(e))
+	}
+	c := t.expr(e)
+	c.val = "(" + c.val + ".toNat : Int)"
+	return c
+}
+
+// the kind of a Go expression as far as the string subset needs it; "" = unknown
+func (t *tr) kindOf(e ast.Expr) string {
+	switch x := e.(type) {
+	case *ast.ParenExpr:
+		return t.kindOf(x.X)
+	case *ast.Ident:
+		if x.Name == "true" || x.Name == "false" {
+			return kBool
+		}
+		if t.locals[x.Name] || t.plean[x.Name] != "" {
+			return t.kinds[x.Name]
+		}
+	case *ast.BasicLit:
+		switch x.Kind {
+		case token.INT:
+			return kInt
+		case token.CHAR:
+			return kRune
+		case token.STRING:
+			return kString
+		}
+	case *ast.IndexExpr:
+		switch t.kindOf(x.X) {
+		case kStr:
+			return kByte
+		case kStrs:
+			return kStr
+		}
+	case *ast.SliceExpr:
+		if t.kindOf(x.X) == kStr {
+			return kStr
+		}
+	case *ast.UnaryExpr:
+		if x.Op == token.NOT {
+			return kBool
+		}
+		if x.Op == token.SUB {
+			return t.kindOf(x.X)
+		}
+	case *ast.BinaryExpr:
+		switch x.Op {
+		case token.EQL, token.NEQ, token.LSS, token.LEQ, token.GTR, token.GEQ, token.LAND, token.LOR:
+			return kBool
+		case token.ADD, token.SUB, token.MUL, token.QUO, token.REM:
+			a, b := t.kindOf(x.X), t.kindOf(x.Y)
+			if (a == kInt || a == kRune) && (b == kInt || b == kRune) {
+				return kInt
+			}
+		}
+	case *ast.CallExpr:
+		fn := show(x.Fun)
+		switch {
+		case fn == "len":
+			return kInt
+		case (fn == "int64" || fn == "int" || fn == "int32") && len(x.Args) == 1:
+			if k := t.kindOf(x.Args[0]); k == kInt || k == kRune {
+				return kInt
+			}
+		case fn == "strings.SplitN":
+			return kStrs
+		}
+		if id, ok := x.Fun.(*ast.Ident); ok {
+			if fd, ok := t.pkg.funcs[id.Name]; ok && !t.locals[id.Name] && fd.Type.Results != nil && len(fd.Type.Results.List) == 1 && len(fd.Type.Results.List[0].Names) <= 1 {
+				return kindOfGoType(fd.Type.Results.List[0].Type)
+			}
+		}
+	}
+	return ""
+}
+
+// T{...} for a struct type of the package mapped to a Lean structure by the spec; absent fields take their zero value
+func (t *tr) compositeLit(x *ast.CompositeLit) comp {
+	tn := show(x.Type)
+	lean, ok := t.spec.Structs[tn]
+	st := t.pkg.structs[tn]
+	if !ok || st == nil {
+		fail("%s (%s): composite literal `%s`: type %s is not a struct of the package mapped by the spec (structs)", t.spec.Lean, t.spec.File, show(x), tn)
+	}
+	given := map[string]ast.Expr{}
+	for _, el := range x.Elts {
+		kv, ok := el.(*ast.KeyValueExpr)
+		if !ok {
+			fail("%s (%s): composite literal `%s`: positional fields are not supported", t.spec.Lean, t.spec.File, show(x))
+		}
+		given[show(kv.Key)] = kv.Value
+	}
+	c := comp{}
+	fields := []string{}
+	for _, f := range st.Fields.List {
+		if len(f.Names) == 0 {
+			fail("%s (%s): composite literal `%s`: embedded field", t.spec.Lean, t.spec.File, show(x))
+		}
+		for _, nm := range f.Names {
+			v := ""
+			if ge, ok := given[nm.Name]; ok {
+				fc := t.expr(ge)
+				c.pre = append(c.pre, fc.pre...)
+				v = fc.val
+				delete(given, nm.Name)
+			} else {
+				v = t.zero(f.Type)
+			}
+			fields = append(fields, mangle(lowerFirst(nm.Name))+" := "+v)
+		}
+	}
+	if len(given) != 0 {
+		fail("%s (%s): composite literal `%s`: unknown field", t.spec.Lean, t.spec.File, show(x))
+	}
+	c.val = "({ " + strings.Join(fields, ", ") + " } : " + lean + ")"
+	return c
 }
 
 func (t *tr) nonZeroConst(e ast.Expr) bool {
@@ -503,7 +879,40 @@ var convNames = map[string]bool{"int64": true, "int": true, "int32": true, "uint
 func (t *tr) call(x *ast.CallExpr) comp {
 	fn := show(x.Fun)
 	if convNames[fn] && len(x.Args) == 1 {
+		if fn == "string" && t.kindOf(x.Args[0]) != kString && t.kindOf(x.Args[0]) != kStr && t.kindOf(x.Args[0]) != "" {
+			fail("%s (%s): conversion `%s` of a non-string to string", t.spec.Lean, t.spec.File, show(x))
+		}
+		if k := t.kindOf(x.Args[0]); (k == kRune || k == kByte) && fn != "string" {
+			fail("%s (%s): conversion `%s` of a bare byte/rune (only `int64(ch - '0')`-style arithmetic is modelled)", t.spec.Lean, t.spec.File, show(x))
+		}
 		return t.expr(x.Args[0])
+	}
+	if fn == "len" && len(x.Args) == 1 && !t.locals["len"] {
+		k := t.kindOf(x.Args[0])
+		if k != kStr && k != kStrs {
+			fail("%s (%s): `%s`: len of a value that is neither a string of kind Str nor a SplitN result", t.spec.Lean, t.spec.File, show(x))
+		}
+		a := t.expr(x.Args[0])
+		a.val = "(" + a.val + ".length : Int)"
+		return a
+	}
+	if fn == "strings.SplitN" && t.imports("strings") && !t.locals["strings"] && len(x.Args) == 3 {
+		// strings.SplitN(x, sep, 2) with a one-byte literal separator: [x] when sep does not occur, else [before, after]
+		sep, okSep := x.Args[1].(*ast.BasicLit)
+		n, okN := x.Args[2].(*ast.BasicLit)
+		if !okSep || !okN || sep.Kind != token.STRING || n.Kind != token.INT || n.Value != "2" {
+			fail("%s (%s): `%s`: only strings.SplitN(x, \"<one byte>\", 2) is supported", t.spec.Lean, t.spec.File, show(x))
+		}
+		sv, err := strconv.Unquote(sep.Value)
+		if err != nil || len(sv) != 1 || sv[0] >= 128 {
+			fail("%s (%s): `%s`: the separator must be a single ASCII byte", t.spec.Lean, t.spec.File, show(x))
+		}
+		if t.kindOf(x.Args[0]) != kStr {
+			fail("%s (%s): `%s`: the split value is not a string of kind Str", t.spec.Lean, t.spec.File, show(x))
+		}
+		a := t.expr(x.Args[0])
+		a.val = "(Rv.SrcStr.splitN2 " + charLit(rune(sv[0])) + " " + a.val + ")"
+		return a
 	}
 	// time arithmetic on instants / durations modelled as Int
 	if sel, ok := x.Fun.(*ast.SelectorExpr); ok {
@@ -553,6 +962,9 @@ func (t *tr) call(x *ast.CallExpr) comp {
 		}
 	}
 	if key != "" {
+		if cs := t.out.specs[key]; cs != nil && cs.ErrMode != "" {
+			fail("%s (%s): call of %s whose translation uses errmode %q (its result is not a tuple)", t.spec.Lean, t.spec.File, key, cs.ErrMode)
+		}
 		lean := t.out.ensure(t, key)
 		c := comp{}
 		args := []string{}
@@ -604,6 +1016,8 @@ func terminates(stmts []ast.Stmt) bool {
 	switch s := stmts[len(stmts)-1].(type) {
 	case *ast.ReturnStmt:
 		return true
+	case *ast.BranchStmt:
+		return s.Label == nil && (s.Tok == token.CONTINUE || s.Tok == token.BREAK)
 	case *ast.BlockStmt:
 		return terminates(s.List)
 	case *ast.IfStmt:
@@ -637,7 +1051,42 @@ func (t *tr) zero(typ ast.Expr) string {
 	return ""
 }
 
+// the value of the loop-carried variables as they stand (let-shadowing keeps the current value under the Go name)
+func (t *tr) carriedTuple() string {
+	vs := []string{}
+	for _, n := range t.loop.carried {
+		vs = append(vs, mangle(n))
+	}
+	if len(vs) == 0 {
+		return "()"
+	}
+	return "(" + strings.Join(vs, ", ") + ")"
+}
+
+// next iteration: the auxiliary function on the remaining elements
+func (t *tr) continueTerm() string {
+	out := t.loop.callTok + " " + t.loop.tailVar
+	if t.loop.index != "" {
+		out += " (" + t.loop.index + " + 1)"
+	}
+	for _, n := range t.loop.carried {
+		out += " " + mangle(n)
+	}
+	return out
+}
+
+// wrap a returned value: `some v` in a function body, `some (Loop.ret v)` inside a loop
+func (t *tr) wrapReturn(c comp) string {
+	if t.loop != nil {
+		c.val = "Rv.SrcStr.Loop.ret (" + c.val + ")"
+	}
+	return c.render()
+}
+
 func (t *tr) endValue() string {
+	if t.loop != nil {
+		return t.continueTerm()
+	}
 	if len(t.named) > 0 {
 		vs := []string{}
 		for _, n := range t.named {
@@ -689,10 +1138,23 @@ func (t *tr) stmts(list []ast.Stmt) string {
 		return t.stmts(rest)
 	case *ast.ReturnStmt:
 		if len(x.Results) == 0 {
+			if t.spec.ErrMode != "" {
+				fail("%s: bare return with errmode %q", t.spec.Lean, t.spec.ErrMode)
+			}
+			if t.loop != nil {
+				saved := t.loop
+				t.loop = nil
+				v := t.endValue() // "some (named results)"
+				t.loop = saved
+				return "some (Rv.SrcStr.Loop.ret " + strings.TrimPrefix(v, "some ") + ")"
+			}
 			return t.endValue()
 		}
 		if len(x.Results) != len(t.spec.Results) {
 			fail("%s: return with %d values, spec declares %d", t.spec.Lean, len(x.Results), len(t.spec.Results))
+		}
+		if t.spec.ErrMode == "name" {
+			return t.wrapReturn(t.returnNamedErr(x))
 		}
 		c := comp{}
 		vals := []string{}
@@ -702,11 +1164,27 @@ func (t *tr) stmts(list []ast.Stmt) string {
 			vals = append(vals, rc.val)
 		}
 		c.val = strings.Join(vals, ", ")
-		return c.render()
+		return t.wrapReturn(c)
+	case *ast.BranchStmt:
+		if t.loop == nil || x.Label != nil {
+			fail("%s (%s): `%s` outside a translated loop or with a label", t.spec.Lean, t.spec.File, show(x))
+		}
+		switch x.Tok {
+		case token.CONTINUE:
+			return t.continueTerm()
+		case token.BREAK:
+			return "some (Rv.SrcStr.Loop.done " + t.carriedTuple() + ")"
+		}
+		fail("%s (%s): `%s`", t.spec.Lean, t.spec.File, show(x))
+	case *ast.RangeStmt:
+		return t.rangeLoop(x, rest)
 	case *ast.ExprStmt:
 		txt := show(x)
 		for re, eff := range t.spec.Effects {
 			if regexp.MustCompile(re).MatchString(txt) {
+				if t.loop != nil {
+					fail("%s (%s): effect statement `%s` inside a loop (pseudo results are not loop-carried)", t.spec.Lean, t.spec.File, txt)
+				}
 				parts := strings.SplitN(eff, ":=", 2)
 				return "let " + strings.TrimSpace(parts[0]) + " := " + strings.TrimSpace(parts[1]) + "\n  " + t.stmts(rest)
 			}
@@ -720,6 +1198,10 @@ func (t *tr) stmts(list []ast.Stmt) string {
 		if !ok || !t.locals[id.Name] {
 			fail("%s: %s", t.spec.Lean, show(x))
 		}
+		if k := t.kinds[id.Name]; k != "" && k != kInt {
+			fail("%s (%s): `%s` on a variable of kind %s", t.spec.Lean, t.spec.File, show(x), k)
+		}
+		t.used[id.Name] = true
 		op := " + 1"
 		if x.Tok == token.DEC {
 			op = " - 1"
@@ -736,12 +1218,22 @@ func (t *tr) stmts(list []ast.Stmt) string {
 			vs := sp.(*ast.ValueSpec)
 			for i, nm := range vs.Names {
 				var c comp
+				kind := kindOfGoType(vs.Type)
 				if i < len(vs.Values) {
 					c = t.expr(vs.Values[i])
+					if vs.Type == nil {
+						kind = t.kindOf(vs.Values[i])
+					}
 				} else {
 					c = pure(t.zero(vs.Type))
 				}
-				t.declare(nm.Name)
+				if kind == kStr {
+					kind = kString // a string declared from a literal is a Lean String (legacy); Str values come from parameters, slices, SplitN
+					if i < len(vs.Values) && t.kindOf(vs.Values[i]) == kStr {
+						kind = kStr
+					}
+				}
+				t.declareK(nm.Name, kind)
 				for _, b := range c.pre {
 					out += "Option.bind (" + b.term + ") (fun " + b.name + " =>\n  "
 					closeN++
@@ -760,9 +1252,11 @@ func (t *tr) stmts(list []ast.Stmt) string {
 				fail("%s (%s): assignment to `%s` (only local variables can be assigned)", t.spec.Lean, t.spec.File, show(x.Lhs[0]))
 			}
 			var c comp
+			kind := ""
 			switch x.Tok {
 			case token.DEFINE, token.ASSIGN:
 				c = t.expr(x.Rhs[0])
+				kind = t.kindOf(x.Rhs[0])
 			case token.ADD_ASSIGN, token.SUB_ASSIGN, token.MUL_ASSIGN:
 				op := map[token.Token]token.Token{token.ADD_ASSIGN: token.ADD, token.SUB_ASSIGN: token.SUB, token.MUL_ASSIGN: token.MUL}[x.Tok]
 				c = t.expr(&ast.BinaryExpr{X: x.Lhs[0], Op: op, Y: x.Rhs[0]})
@@ -770,24 +1264,66 @@ func (t *tr) stmts(list []ast.Stmt) string {
 				fail("%s: assignment operator in %s", t.spec.Lean, show(x))
 			}
 			if x.Tok == token.DEFINE {
-				t.declare(id.Name)
+				t.declareK(id.Name, kind)
 			} else if !t.locals[id.Name] {
 				fail("%s (%s): assignment to non-local `%s`", t.spec.Lean, t.spec.File, id.Name)
+			} else if x.Tok == token.ASSIGN && t.kinds[id.Name] != "" && kind != "" && kind != t.kinds[id.Name] {
+				fail("%s (%s): assignment `%s`: the variable has kind %s, the value kind %q", t.spec.Lean, t.spec.File, show(x), t.kinds[id.Name], kind)
 			}
 			if id.Name == "_" {
 				return t.stmts(rest)
 			}
 			return c.andThen(func(v string) string { return "let " + mangle(id.Name) + " := " + v + "\n  " + t.stmts(rest) })
 		}
+		// v, ok := m[k] on a package-level map literal that nothing modifies: a lookup in the emitted table
+		if len(x.Lhs) == 2 && len(x.Rhs) == 1 && x.Tok == token.DEFINE {
+			if ix, ok := x.Rhs[0].(*ast.IndexExpr); ok {
+				if mid, ok := ix.X.(*ast.Ident); ok && !t.locals[mid.Name] && t.plean[mid.Name] == "" && t.pkg.mapVars[mid.Name] != nil {
+					tbl, _, vk := t.out.ensureMap(t, mid.Name)
+					k := t.expr(ix.Index)
+					if !t.isCharLike(ix.Index) {
+						fail("%s (%s): `%s`: the key is not a byte/rune", t.spec.Lean, t.spec.File, show(x))
+					}
+					v, okv := x.Lhs[0].(*ast.Ident), x.Lhs[1].(*ast.Ident)
+					if v == nil || okv == nil {
+						fail("%s (%s): `%s`", t.spec.Lean, t.spec.File, show(x))
+					}
+					t.checkNoShadow([]ast.Stmt{x})
+					t.declareK(v.Name, vk)
+					t.declareK(okv.Name, kBool)
+					return k.andThen(func(kv string) string {
+						return "match (match List.lookup " + kv + " " + tbl + " with | some u_ => (u_, true) | none => ((0 : Int), false)) with\n  | (" + mangle(v.Name) + ", " + mangle(okv.Name) + ") =>\n  " + t.stmts(rest)
+					})
+				}
+			}
+		}
 		// a, b, c := f(args) with f translatable
 		if len(x.Rhs) == 1 && x.Tok == token.DEFINE {
 			if call, ok := x.Rhs[0].(*ast.CallExpr); ok {
 				c := t.call(call)
 				names := []string{}
-				for _, l := range x.Lhs {
+				var resKinds []string
+				if fid, ok := call.Fun.(*ast.Ident); ok {
+					if fd := t.pkg.funcs[fid.Name]; fd != nil && fd.Type.Results != nil {
+						for _, f := range fd.Type.Results.List {
+							n := len(f.Names)
+							if n == 0 {
+								n = 1
+							}
+							for j := 0; j < n; j++ {
+								resKinds = append(resKinds, kindOfGoType(f.Type))
+							}
+						}
+					}
+				}
+				for i, l := range x.Lhs {
 					id := l.(*ast.Ident)
 					if id.Name != "_" {
-						t.declare(id.Name)
+						k := ""
+						if i < len(resKinds) && len(resKinds) == len(x.Lhs) {
+							k = resKinds[i]
+						}
+						t.declareK(id.Name, k)
 					}
 					names = append(names, mangle(id.Name))
 				}
@@ -842,6 +1378,19 @@ func (t *tr) stmts(list []ast.Stmt) string {
 				if br, ok := st.(*ast.BranchStmt); ok && br.Tok == token.FALLTHROUGH {
 					fail("%s: fallthrough", t.spec.Lean)
 				}
+				// an unlabeled `break` inside a switch leaves the SWITCH, not the enclosing loop; the if-chain this
+				// switch is rewritten into cannot express that
+				ast.Inspect(st, func(n ast.Node) bool {
+					switch b := n.(type) {
+					case *ast.ForStmt, *ast.RangeStmt, *ast.SwitchStmt, *ast.TypeSwitchStmt, *ast.SelectStmt, *ast.FuncLit:
+						return false
+					case *ast.BranchStmt:
+						if b.Tok == token.BREAK && b.Label == nil {
+							fail("%s (%s): `break` inside a switch (it leaves the switch, not the loop)", t.spec.Lean, t.spec.File)
+						}
+					}
+					return true
+				})
 			}
 			if cl.List == nil {
 				deflt = cl.Body
@@ -879,8 +1428,447 @@ func (t *tr) stmts(list []ast.Stmt) string {
 	return ""
 }
 
+// return v, err with errmode "name": Except String T
+func (t *tr) returnNamedErr(x *ast.ReturnStmt) comp {
+	n := len(x.Results)
+	if n < 2 || t.spec.Results[n-1] != "err" {
+		fail("%s: errmode \"name\" needs results (values..., error)", t.spec.Lean)
+	}
+	c := comp{}
+	vals := []string{}
+	for i, r := range x.Results[:n-1] {
+		rc := t.retValue(r, t.spec.Results[i])
+		c.pre = append(c.pre, rc.pre...)
+		vals = append(vals, rc.val)
+	}
+	e := x.Results[n-1]
+	if id, ok := e.(*ast.Ident); ok && id.Name == "nil" && !t.locals["nil"] {
+		c.val = "Except.ok (" + strings.Join(vals, ", ") + ")"
+		return c
+	}
+	name := ""
+	switch ev := e.(type) {
+	case *ast.Ident:
+		if !t.locals[ev.Name] && t.plean[ev.Name] == "" && t.pkg.errVars[ev.Name] {
+			name = ev.Name
+		}
+	case *ast.CallExpr:
+		// fmt.Errorf("%w ...", ErrX, ...): the error wraps ErrX (errors.Is(err, ErrX) holds)
+		if show(ev.Fun) == "fmt.Errorf" && t.imports("fmt") && len(ev.Args) >= 2 {
+			if f, ok := ev.Args[0].(*ast.BasicLit); ok && f.Kind == token.STRING {
+				fs, _ := strconv.Unquote(f.Value)
+				if strings.HasPrefix(fs, "%w") && strings.Count(fs, "%w") == 1 {
+					if id, ok := ev.Args[1].(*ast.Ident); ok && !t.locals[id.Name] && t.plean[id.Name] == "" && t.pkg.errVars[id.Name] {
+						name = id.Name
+					}
+				}
+			}
+		}
+	}
+	if name == "" {
+		fail("%s (%s): `%s`: with errmode \"name\" the error must be nil, a package-level `var ErrX = errors.New(..)` or fmt.Errorf(\"%%w...\", ErrX, ...)", t.spec.Lean, t.spec.File, show(x))
+	}
+	if len(c.pre) != 0 {
+		fail("%s (%s): `%s`: the value returned beside a non-nil error is dropped by errmode \"name\" and must therefore be a pure expression", t.spec.Lean, t.spec.File, show(x))
+	}
+	return pure("Except.error " + leanString(name))
+}
+
+// identifiers assigned (=, op=, ++, --) anywhere in the statements, and identifiers declared (:=, var) in them
+func assignedIn(list []ast.Stmt) (assigned map[string]bool, declared map[string]bool, other string) {
+	assigned, declared = map[string]bool{}, map[string]bool{}
+	for _, st := range list {
+		ast.Inspect(st, func(n ast.Node) bool {
+			switch a := n.(type) {
+			case *ast.AssignStmt:
+				for _, l := range a.Lhs {
+					if id, ok := l.(*ast.Ident); ok {
+						if a.Tok == token.DEFINE {
+							declared[id.Name] = true
+						} else {
+							assigned[id.Name] = true
+						}
+					}
+				}
+			case *ast.IncDecStmt:
+				if id, ok := a.X.(*ast.Ident); ok {
+					assigned[id.Name] = true
+				}
+			case *ast.DeclStmt:
+				if gd, ok := a.Decl.(*ast.GenDecl); ok {
+					for _, sp := range gd.Specs {
+						if vs, ok := sp.(*ast.ValueSpec); ok {
+							for _, nm := range vs.Names {
+								declared[nm.Name] = true
+							}
+						}
+					}
+				}
+			case *ast.RangeStmt:
+				other = "a nested loop"
+			case *ast.ForStmt:
+				other = "a nested loop"
+			case *ast.FuncLit:
+				other = "a function literal"
+			case *ast.UnaryExpr:
+				if a.Op == token.AND {
+					other = "an address-of expression"
+				}
+			case *ast.GoStmt, *ast.DeferStmt, *ast.LabeledStmt, *ast.SelectStmt, *ast.SendStmt:
+				other = "a go/defer/label/select/send statement"
+			}
+			return true
+		})
+	}
+	return
+}
+
+// for i, ch := range s { body } over a string of kind Str, or for k, v := range m over an unmodified package-level map
+// literal (whose iteration ORDER becomes a parameter of the translated function).
+func (t *tr) rangeLoop(x *ast.RangeStmt, rest []ast.Stmt) string {
+	where := fmt.Sprintf("%s (%s)", t.spec.Lean, t.spec.File)
+	if t.loop != nil {
+		fail("%s: nested loop `%s`", where, strings.SplitN(show(x), "{", 2)[0])
+	}
+	if x.Tok != token.DEFINE {
+		fail("%s: `%s`: the range variables must be declared by the loop (:=)", where, strings.SplitN(show(x), "{", 2)[0])
+	}
+	src, ok := x.X.(*ast.Ident)
+	if !ok {
+		fail("%s: range over `%s` (only a variable can be ranged over)", where, show(x.X))
+	}
+	keyName, valName := "", ""
+	if x.Key != nil {
+		keyName = x.Key.(*ast.Ident).Name
+	}
+	if x.Value != nil {
+		valName = x.Value.(*ast.Ident).Name
+	}
+	if keyName == "_" {
+		keyName = ""
+	}
+	if valName == "_" {
+		valName = ""
+	}
+	isMap := false
+	elemTy, srcTerm := "Char", ""
+	keyKind, valKind := kInt, kRune
+	switch {
+	case (t.locals[src.Name] || t.plean[src.Name] != "") && t.kinds[src.Name] == kStr:
+		c := t.expr(src)
+		srcTerm = c.val
+	case !t.locals[src.Name] && t.plean[src.Name] == "" && t.pkg.mapVars[src.Name] != nil:
+		_, kk, vk := t.out.ensureMap(t, src.Name)
+		ob := t.spec.MapOrder[src.Name]
+		if ob == "" {
+			fail("%s: range over the map `%s`: Go's iteration order is unspecified; the spec must name a binder for it (maporder)", where, src.Name)
+		}
+		isMap, keyKind, valKind = true, kk, vk
+		elemTy = "(" + leanTypeOfKind(kk) + " × " + leanTypeOfKind(vk) + ")"
+		srcTerm = ob
+		found := false
+		for _, b := range t.spec.Binders {
+			if strings.HasPrefix(b, "("+ob+" :") {
+				found = true
+			}
+		}
+		if !found {
+			fail("%s: maporder binder %s is not among the binders of the spec", where, ob)
+		}
+	default:
+		fail("%s: range over `%s`, which is neither a string of kind Str nor a package-level map literal", where, src.Name)
+	}
+	body := x.Body.List
+	assigned, declared, other := assignedIn(body)
+	if other != "" {
+		fail("%s: the body of `%s` contains %s", where, strings.SplitN(show(x), "{", 2)[0], other)
+	}
+	for _, n := range []string{src.Name, keyName, valName} {
+		if n != "" && (assigned[n] || declared[n]) {
+			fail("%s: the loop body assigns or redeclares `%s` (the ranged value or a range variable)", where, n)
+		}
+	}
+	for n := range declared {
+		if t.locals[n] || t.plean[n] != "" {
+			fail("%s: `%s` declared in the loop body shadows an outer variable", where, n)
+		}
+	}
+	if (keyName != "" && (t.locals[keyName] || t.plean[keyName] != "")) || (valName != "" && (t.locals[valName] || t.plean[valName] != "")) {
+		fail("%s: a range variable of `%s` shadows an outer variable", where, strings.SplitN(show(x), "{", 2)[0])
+	}
+	// loop-carried variables: the outer variables the body assigns, in declaration order
+	carried := []string{}
+	for _, n := range t.declOrder {
+		if assigned[n] && t.locals[n] {
+			if leanTypeOfKind(t.kinds[n]) == "" {
+				fail("%s: the loop assigns `%s`, whose type is outside the subset", where, n)
+			}
+			carried = append(carried, n)
+			delete(assigned, n)
+		}
+	}
+	for n := range assigned {
+		if n != "_" {
+			fail("%s: the loop assigns `%s`, which is not a local variable of the function", where, n)
+		}
+	}
+	t.nloops++
+	loopName := fmt.Sprintf("%s_loop%d", t.spec.Lean, t.nloops)
+	savedLocals, savedUsed := t.snapshot(), t.used
+	t.used = map[string]bool{}
+	lc := &loopCtx{callTok: "\x00CALL\x00", tailVar: "rest_", carried: carried}
+	headPat := "_"
+	if isMap {
+		kp, vp := "_", "_"
+		if keyName != "" {
+			t.declareK(keyName, keyKind)
+			kp = mangle(keyName)
+		}
+		if valName != "" {
+			t.declareK(valName, valKind)
+			vp = mangle(valName)
+		}
+		headPat = "(" + kp + ", " + vp + ")"
+	} else {
+		if keyName != "" {
+			t.declareK(keyName, kInt)
+			lc.index = mangle(keyName)
+		}
+		if valName != "" {
+			t.declareK(valName, kRune)
+			headPat = mangle(valName)
+		}
+	}
+	t.loop = lc
+	bodyTerm := t.stmts(body)
+	t.loop = nil
+	bodyUsed := t.used
+	t.used = savedUsed
+	t.restore(savedLocals)
+	// free variables of the body: parameters and outer locals it reads but does not assign
+	isCarried := map[string]bool{}
+	for _, n := range carried {
+		isCarried[n] = true
+	}
+	fixedB, fixedA := []string{}, []string{}
+	bn := t.binderNames()
+	for i, b := range t.spec.Binders {
+		for g, l := range t.plean {
+			if l == bn[i] && bodyUsed[g] {
+				fixedB, fixedA = append(fixedB, b), append(fixedA, bn[i])
+				t.used[g] = true
+				break
+			}
+		}
+	}
+	for _, n := range t.declOrder {
+		if bodyUsed[n] && t.locals[n] && !isCarried[n] {
+			ty := leanTypeOfKind(t.kinds[n])
+			if ty == "" {
+				fail("%s: the loop body reads `%s`, whose type is outside the subset", where, n)
+			}
+			fixedB, fixedA = append(fixedB, "("+mangle(n)+" : "+ty+")"), append(fixedA, mangle(n))
+			t.used[n] = true
+		}
+	}
+	binders := append([]string{}, fixedB...)
+	binders = append(binders, "(rest_ : List "+elemTy+")")
+	if lc.index != "" {
+		binders = append(binders, "("+lc.index+" : Int)")
+	}
+	carTys := []string{}
+	for _, n := range carried {
+		binders = append(binders, "("+mangle(n)+" : "+leanTypeOfKind(t.kinds[n])+")")
+		carTys = append(carTys, leanTypeOfKind(t.kinds[n]))
+		t.used[n] = true
+	}
+	stTy := "Unit"
+	if len(carTys) > 0 {
+		stTy = strings.Join(carTys, " × ")
+	}
+	call := "Rv.Generated.Src." + loopName
+	for _, a := range fixedA {
+		call += " " + a
+	}
+	bodyTerm = strings.ReplaceAll(bodyTerm, lc.callTok, call)
+	pos := fset.Position(x.Pos())
+	caveat := "One list element = one BYTE of the string; Go's range decodes RUNES: the translation is the Go loop exactly on ASCII input (every byte < 128)."
+	if isMap {
+		caveat = "Go iterates a map in an UNSPECIFIED order: `rest_` starts as the order given to the enclosing function, about which nothing may be assumed but that it is a permutation of the table."
+	}
+	def := fmt.Sprintf("/-- the loop `%s` of `%s` (%s:%d): `Loop.ret v` = the function returned v inside the loop, `Loop.done st` = the loop ended with the carried variables %v = st. %s -/\n",
+		strings.TrimSpace(strings.SplitN(show(x), "{", 2)[0]), t.spec.Func, t.spec.File, pos.Line, carried, caveat)
+	def += "def " + loopName + " " + strings.Join(binders, " ") + " : Option (Rv.SrcStr.Loop (" + t.spec.Ret + ") (" + stTy + ")) :=\n  match rest_ with\n  | [] => some (Rv.SrcStr.Loop.done " + t.carriedTupleOf(carried) + ")\n  | " + headPat + " :: rest_ =>\n  " + bodyTerm + "\ntermination_by structural rest_\n"
+	t.out.defs = append(t.out.defs, def)
+	// the enclosing function continues with the outcome of the loop
+	start := call + " " + srcTerm
+	if lc.index != "" {
+		start += " (0 : Int)"
+	}
+	for _, n := range carried {
+		start += " " + mangle(n)
+	}
+	after := t.stmts(rest)
+	retArm := "some v_"
+	return "Option.bind (" + start + ") (fun r_ => match r_ with\n  | Rv.SrcStr.Loop.ret v_ => " + retArm + "\n  | Rv.SrcStr.Loop.done " + t.carriedTupleOf(carried) + " =>\n  " + after + ")"
+}
+
+func (t *tr) carriedTupleOf(carried []string) string {
+	vs := []string{}
+	for _, n := range carried {
+		vs = append(vs, mangle(n))
+	}
+	if len(vs) == 0 {
+		return "()"
+	}
+	return "(" + strings.Join(vs, ", ") + ")"
+}
+
+func (t *tr) binderNames() []string {
+	bn := []string{}
+	for _, b := range t.spec.Binders {
+		bn = append(bn, strings.TrimSpace(strings.SplitN(strings.TrimPrefix(b, "("), ":", 2)[0]))
+	}
+	return bn
+}
+
+// a package-level map literal with rune/byte keys and integer values, emitted as a Lean table (once per module) after
+// checking that nothing in the package can modify it: every use is a read `m[k]` or `range m`.
+func (g *genOut) ensureMap(from *tr, name string) (lean string, keyKind string, valKind string) {
+	p := from.pkg
+	cl := p.mapVars[name]
+	mt := cl.Type.(*ast.MapType)
+	keyKind, valKind = kindOfGoType(mt.Key), kindOfGoType(mt.Value)
+	if (keyKind != kRune && keyKind != kByte) || valKind != kInt {
+		fail("%s: map `%s` of type %s (only map[rune|byte]<integer> literals are supported)", from.spec.Lean, name, show(cl.Type))
+	}
+	lean = "Rv.Generated.Src." + mangle(name)
+	if g.maps[name] {
+		return
+	}
+	if _, checked := p.mapOK[name]; !checked {
+		p.mapOK[name] = mapModifiedBy(p, name)
+	}
+	if why := p.mapOK[name]; why != "" {
+		fail("%s: map `%s` may be modified: %s", from.spec.Lean, name, why)
+	}
+	ct := &tr{spec: from.spec, pkg: p, fn: from.fn, locals: map[string]bool{}, plean: map[string]string{}, out: g, kinds: map[string]string{}, used: map[string]bool{}}
+	rows := []string{}
+	seen := map[string]bool{}
+	for _, el := range cl.Elts {
+		kv, ok := el.(*ast.KeyValueExpr)
+		if !ok {
+			fail("%s: map `%s`: element `%s`", from.spec.Lean, name, show(el))
+		}
+		kl, ok := kv.Key.(*ast.BasicLit)
+		if !ok || kl.Kind != token.CHAR {
+			fail("%s: map `%s`: key `%s` is not a character literal", from.spec.Lean, name, show(kv.Key))
+		}
+		k := charLit(ct.charValue(kl))
+		if seen[k] {
+			fail("%s: map `%s`: duplicate key %s", from.spec.Lean, name, k)
+		}
+		seen[k] = true
+		v := ct.constExpr(kv.Value)
+		if len(v.pre) != 0 {
+			fail("%s: map `%s`: value `%s` is not a constant expression", from.spec.Lean, name, show(kv.Value))
+		}
+		rows = append(rows, "("+k+", ("+v.val+" : Int))")
+	}
+	pos := fset.Position(cl.Pos())
+	def := fmt.Sprintf("/-- the literal of the package-level map `%s` (%s:%d), in source order; checked: no statement of the package can modify it (it is only read by `m[k]` and `range m`). A Go map literal cannot repeat a constant key, so `List.lookup` is the map lookup. -/\ndef %s : List (Char × Int) :=\n  [%s]\n",
+		name, filepath.Base(fset.Position(cl.Pos()).Filename), pos.Line, mangle(name), strings.Join(rows, ",\n   "))
+	g.defs = append(g.defs, def)
+	g.maps[name] = true
+	return
+}
+
+// "" if every occurrence of the identifier in the package is the declaration, the operand of an rvalue index
+// expression, or the operand of range; otherwise a description of the first other use.
+func mapModifiedBy(p *pkgInfo, name string) string {
+	why := ""
+	for _, f := range p.files {
+		var stack []ast.Node
+		ast.Inspect(f, func(n ast.Node) bool {
+			if n == nil {
+				stack = stack[:len(stack)-1]
+				return true
+			}
+			stack = append(stack, n)
+			id, ok := n.(*ast.Ident)
+			if !ok || id.Name != name || why != "" || len(stack) < 2 {
+				return true
+			}
+			parent := stack[len(stack)-2]
+			pos := fset.Position(id.Pos())
+			at := fmt.Sprintf("%s:%d", filepath.Base(pos.Filename), pos.Line)
+			switch pa := parent.(type) {
+			case *ast.ValueSpec:
+				for _, nm := range pa.Names {
+					if nm == id {
+						return true
+					}
+				}
+			case *ast.RangeStmt:
+				if pa.X == id {
+					return true
+				}
+			case *ast.IndexExpr:
+				if pa.X == id && len(stack) >= 3 {
+					switch gp := stack[len(stack)-3].(type) {
+					case *ast.AssignStmt:
+						for _, l := range gp.Lhs {
+							if l == pa {
+								why = "assignment to an element at " + at
+								return true
+							}
+						}
+						return true
+					case *ast.IncDecStmt:
+						why = "++/-- of an element at " + at
+						return true
+					case *ast.UnaryExpr:
+						if gp.Op == token.AND {
+							why = "address of an element at " + at
+						}
+						return true
+					default:
+						return true
+					}
+				}
+			case *ast.SelectorExpr:
+				if pa.Sel == id {
+					return true // a field or method of that name, not the variable
+				}
+			case *ast.KeyValueExpr:
+				if pa.Key == id {
+					return true // a struct field key
+				}
+			case *ast.Field:
+				return true
+			}
+			why = "it is used other than by m[k] / range m at " + at
+			return true
+		})
+	}
+	return why
+}
+
 func (t *tr) declare(n string) {
+	t.declareK(n, "")
+}
+func (t *tr) declareK(n, kind string) {
+	if n == "_" {
+		return
+	}
 	t.locals[n] = true
+	t.kinds[n] = kind
+	for _, d := range t.declOrder {
+		if d == n {
+			return
+		}
+	}
+	t.declOrder = append(t.declOrder, n)
 }
 func (t *tr) snapshot() map[string]bool {
 	m := map[string]bool{}
@@ -909,7 +1897,6 @@ func (t *tr) checkNoShadow(list []ast.Stmt) {
 		}
 	}
 }
-
 
 func (g *genOut) ensure(from *tr, key string) string {
 	if n, ok := g.done[key]; ok {
@@ -946,7 +1933,7 @@ func translate(g *genOut, pkg *pkgInfo, sp *Spec, key string) {
 	if !ok {
 		fail("%s: function %s not found in %s", sp.Lean, key, pkg.dir)
 	}
-	t := &tr{spec: sp, pkg: pkg, fn: fn, locals: map[string]bool{}, plean: map[string]string{}, out: g}
+	t := &tr{spec: sp, pkg: pkg, fn: fn, locals: map[string]bool{}, plean: map[string]string{}, out: g, kinds: map[string]string{}, used: map[string]bool{}}
 	if fn.Recv != nil && len(fn.Recv.List) == 1 && len(fn.Recv.List[0].Names) == 1 {
 		t.recv = fn.Recv.List[0].Names[0].Name
 	}
@@ -959,9 +1946,11 @@ func translate(g *genOut, pkg *pkgInfo, sp *Spec, key string) {
 		ftype, body = fl.Type, fl.Body
 		t.recv = ""
 	}
+	paramTypes := map[string]ast.Expr{}
 	for _, f := range ftype.Params.List {
 		for _, n := range f.Names {
 			t.params = append(t.params, n.Name)
+			paramTypes[n.Name] = f.Type
 		}
 	}
 	if !sp.FuncLit && sp.Expr == "" && sp.Cond == "" {
@@ -982,6 +1971,15 @@ func translate(g *genOut, pkg *pkgInfo, sp *Spec, key string) {
 				fail("%s: Go function %s has more parameters than the spec has binders", sp.Lean, key)
 			}
 			t.plean[pn] = bn[k+i]
+			// the kind of a parameter: a Go string is of kind Str only if its Lean binder says `Str`
+			kind := kindOfGoType(paramTypes[pn])
+			if kind == kStr {
+				kind = kString
+				if regexp.MustCompile(`^\(\s*` + regexp.QuoteMeta(bn[k+i]) + `\s*:\s*(Rv\.)?Str\s*\)$`).MatchString(sp.Binders[k+i]) {
+					kind = kStr
+				}
+			}
+			t.kinds[pn] = kind
 		}
 	}
 	pre := ""
@@ -989,7 +1987,7 @@ func translate(g *genOut, pkg *pkgInfo, sp *Spec, key string) {
 		for _, f := range ftype.Results.List {
 			for _, n := range f.Names {
 				t.named = append(t.named, n.Name)
-				t.locals[n.Name] = true
+				t.declareK(n.Name, kindOfGoType(f.Type))
 				pre += "let " + mangle(n.Name) + " := " + t.zero(f.Type) + "\n  "
 			}
 		}
@@ -1046,8 +2044,8 @@ func translate(g *genOut, pkg *pkgInfo, sp *Spec, key string) {
 
 func (g *genOut) init() {
 	g.done = map[string]string{}
+	g.maps = map[string]bool{}
 }
-
 
 func main() {
 	repo := flag.String("repo", "/repo", "repository root")
@@ -1109,7 +2107,16 @@ func translateGroup(grp string, specs []*Spec) (text string, refused string) {
 		}
 	}()
 	var b strings.Builder
-	b.WriteString("/- GENERATED by /verif/tools/go2lean from the current source of /repo. Do not edit.\n   Every definition is the translation of one Go function (or of one expression of it); `none` = Go run-time panic. -/\nimport Rv.Model.SrcViews\nnamespace Rv.Generated.Src\nopen Rv.SrcViews\n\n")
+	extra, seenImp := "", map[string]bool{}
+	for _, s := range specs {
+		for _, im := range s.Imports {
+			if !seenImp[im] {
+				seenImp[im] = true
+				extra += "import " + im + "\n"
+			}
+		}
+	}
+	b.WriteString("/- GENERATED by /verif/tools/go2lean from the current source of /repo. Do not edit.\n   Every definition is the translation of one Go function (or of one expression of it); `none` = Go run-time panic. -/\nimport Rv.Model.SrcViews\n" + extra + "namespace Rv.Generated.Src\nopen Rv.SrcViews\n\n")
 	byDir := map[string][]*Spec{}
 	dirs := []string{}
 	for _, s := range specs {
